@@ -106,6 +106,9 @@ CHECKS.update({
 })
 CHECKS["C17"]["text"] += " Boundary literals (non-ASCII strings, 2^32, 2^63, 2^64-1, 2^64, -1) go through the real api.ser/deser before the translation: whatever the encoder accepts must come back unchanged. wire-pickle-json: every executor message class, controller reports, gateway requests/responses (incl. a job instance submitted through the real request_response / parse_request / serialize_response over a fake REQ socket) and generated job instances through orjson and back, with boundary values; declaration order of task outputs must survive."
 CHECKS["C17"]["text"] += " Executor-message framing (Syn/Ack/payload frames) is covered by the frame-sequences harness shared with C06."
+CHECKS["C17"]["text"] += " has-wire-tag: every message class of the module (found in the AST: defines or inherits ser and deser, has no subclass) must carry exactly one tag in b2c - a class the tables do not know cannot be sent."
+CHECKS["C11"]["text"] += " xform-symnames: the names themselves are solver variables (CrossHair symbolic strings): the expanded node's name and the template leaf's name (length 1..2 quick, 1..3 thorough, alphabet {a, .}), two node names under rename_nodes, an output name of length 1..4 over the letters of 'name' read by a consumer through copy / rename / no-op expand / never-fuse / dedup / one-colour split, and producer+output names across a cut edge; one explored path stands for every name that drives the string handling (prefixing, prefix removal, attribute lookup by output name) down the same branches, and the decision tree is exhausted."
+CHECKS["C11"]["note"] = CHECKS["C11"]["note"].replace("Names, outputs and payloads are palette picks (sets of Node objects iterate in id() order, so symbolic strings would make paths non-deterministic): the solver chooses the configuration.", "In the generated-DAG harnesses names, outputs and payloads are palette picks (sets of Node objects iterate in id() order, so symbolic strings on arbitrary DAGs made paths non-deterministic); in xform-symnames they are symbolic strings on fixed 3-4 node shapes.")
 CHECKS["C17"]["technique"] += "; framing: solver-driven enumeration of frame lists through the real Listener._recv_one"
 
 CHECKS.update({
